@@ -61,7 +61,7 @@ def gen_graph(rng, wide=False):
         vpool = ["1", "2", "1-2", "2-1", "1.0+3"]
     two = {"dag2": 0.7, "namecycle": 0.7}.get(shape, 0.3)          # share of names with two versions
     p_unres = 0.12 if rng.random() < 0.5 else 0.0
-    p_uns = 0.15 if rng.random() < 0.12 else 0.0
+    p_uns = rng.choice([0.15, 0.35]) if rng.random() < 0.2 else 0.0
     p_j = rng.choice([0.15, 0.3]) if rng.random() < 0.3 else 0.0
     p_missing = 0.25 if (p_uns == 0.0 and rng.random() < 0.1) else 0.0
     p_skip = 0.2 if rng.random() < 0.15 else 0.0          # table lines with --external
@@ -145,6 +145,29 @@ def gen_graph(rng, wide=False):
                 for q in prods:
                     q.pop("missing", None)
             shape += "+j"
+    if rng.random() < 0.3:
+        # a dependency that does not resolve (or whose table cannot be read) and carries a tag / VRO of its own, followed
+        # by an unversioned dependency whose tagged and current versions differ and have different dependencies: the VRO
+        # pushed for the first line must be gone when the second is resolved — and when another product is listed later
+        ghost_declared = rng.random() < 0.4 and not any(d["k"] in ("unreq", "unopt") for p in prods for d in p["deps"])
+        gline = {"k": rng.choice(["opt", "opt", "req"]), "n": "tghost", "v": None, "j": rng.random() < 0.2}
+        if ghost_declared:
+            gline["t"] = "beta"
+            gline["v"] = "1"            # (the placeholder made when the table cannot be read carries the version written)
+            prods.append({"name": "tghost", "version": "1", "tags": ["current", "beta"], "deps": [], "missing": True})
+        elif rng.random() < 0.3:
+            gline["vro"] = "beta"
+        else:
+            gline["t"] = "beta"
+        prods.append({"name": "ta", "version": "1", "tags": ["current"], "deps": []})
+        prods.append({"name": "tb", "version": "1", "tags": ["current"], "deps": []})
+        prods.append({"name": "tx", "version": "1", "tags": ["current"], "deps": [{"k": "req", "n": "ta", "v": None, "j": False}]})
+        prods.append({"name": "tx", "version": "2", "tags": ["beta"], "deps": [{"k": "req", "n": "tb", "v": None, "j": False}]})
+        before = [{"k": "req", "n": rng.choice(["ta", "tb"]), "v": None, "j": False}] if rng.random() < 0.3 else []
+        prods.append({"name": "ttop", "version": "1", "tags": ["current"],
+                      "deps": before + [gline, {"k": rng.choice(["req", "opt"]), "n": "tx", "v": None, "j": False}]})
+        prods.append({"name": "tu", "version": "1", "tags": ["current"], "deps": [{"k": "req", "n": "tx", "v": None, "j": False}]})
+        shape += "+tag"
     rng.shuffle(prods)
     return {"products": prods, "shape": shape}
 
@@ -217,16 +240,27 @@ class Resolved:
         self.cur = {p["name"]: p["version"] for p in graph["products"] if "current" in p.get("tags", [])}
         self.succ = {}
         self.has_unsetup = {}
+        self.unsetup_names = {}
+        self.tagged = {(p["name"], t): p["version"] for p in graph["products"] for t in p.get("tags", [])}
         for key, p in self.decl.items():
             node = (key[0], key[1], True)
             out = []
             for d in p["deps"]:
                 if d["k"] in ("unreq", "unopt") or d.get("external"):
                     continue            # --external lines denote nothing for a listing
+                if d.get("t") or d.get("vro"):
+                    # a line with a tag / VRO of its own: only above products without table lines (the pushed VRO is popped
+                    # before anything else is resolved), and a --vro only on a name declared nowhere
+                    if any(q["deps"] and not q.get("missing") for q in graph["products"] if q["name"] == d["n"]) or \
+                            (d.get("vro") and any(q["name"] == d["n"] for q in graph["products"])):
+                        raise common.InfraError("generator left the modelled class: tagged line above a product with dependencies")
                 v = d["v"] if d["v"] else self.cur.get(d["n"])
+                if d.get("t") and (d["n"], d["t"]) in self.tagged:
+                    v = self.tagged[(d["n"], d["t"])]        # the tag is in front of the VRO: it outranks the version written
                 t = (d["n"], v, True) if v is not None and (d["n"], v) in self.decl else (d["n"], d["v"], False)
                 out.append((t, bool(d.get("j")), d["k"] == "opt"))
             self.succ[node] = out
+            self.unsetup_names[node] = [d["n"] for d in p["deps"] if d["k"] in ("unreq", "unopt") and not d.get("external")]
             # tables the property says nothing about: with an unsetup line, or declared but missing on disk
             self.has_unsetup[node] = any(d["k"] in ("unreq", "unopt") for d in p["deps"]) or bool(p.get("missing"))
 
@@ -278,7 +312,14 @@ def oracle_listing(R, root, mode, out, stats=None):
             stats("closure:j_target_opened_elsewhere")
         if any(t not in expanded and R.succ.get(t) for t in jt):
             stats("closure:j_target_not_opened")
-        for flag, name in ((twover, "twoversions"), (cyclic, "cyclic"), (unsetup, "unsetup"), (any(not a[2] for a in nodes), "unresolved"),
+        # an unsetup line whose own listing comes back to it: where the re-entrance guard of D32's repair acts
+        reent = False
+        for u in R.closure(rootn, ignore_j=True)[1]:
+            for nm in R.unsetup_names.get(u, ()):
+                for t in R.succ:
+                    if t[0] == nm and u in R.closure(t, ignore_j=True)[1]:
+                        reent = True
+        for flag, name in ((twover, "twoversions"), (cyclic, "cyclic"), (unsetup, "unsetup"), (reent, "unsetup_reentrant"), (any(not a[2] for a in nodes), "unresolved"),
                            (any(sum(1 for a in s if a[2]) > 1 for s in names.values()), "two_declared_versions")):
             if flag:
                 stats("closure:" + name)
@@ -288,13 +329,20 @@ def oracle_listing(R, root, mode, out, stats=None):
                 yield ("cycle_only_when_asked", "D31" if twover else None, "RuntimeError without checkCycles")
             elif not cyclic and not unsetup:
                 yield ("cycle_only_when_cyclic", "D31" if twover else None, "cycle reported on an acyclic closure")
-        elif out == "Recursion" and unsetup and (cyclic or any(t == u for u in expanded for t, _, _ in R.succ.get(u, []))):
-            yield ("terminates", "D32", "recursion limit: unsetupRequired inside a dependency cycle")
+        elif out == "Recursion":
+            # D32 (repaired: re-entrance guard `_unsetupInProgress`): an unsetup line inside a dependency cycle started a fresh
+            # listing from inside itself without end; whatever the tables say, a listing returns
+            yield ("terminates", None, "RecursionError (D32, repaired, when a table reachable from the root has an unsetup line)")
         else:
             yield ("no_error", None, "listing raised %s" % out)
         return
     if unsetup:
-        return                      # the property does not say what an unsetup line means for the listing
+        # the property does not say what an unsetup line means for the listing; it can only take entries away
+        got = {(e[0], e[1], e[2]) for e in out}
+        missing = any(R.decl.get((u[0], u[1]), {}).get("missing") for u in nodes if u[2])    # adds a placeholder entry
+        if not missing and not got <= listed - {rootn}:
+            yield ("listing_within_reach", None, "extra %s" % sorted(got - listed, key=repr))
+        return
     if cc and cyclic:
         yield ("cycle_reported", "D31" if twover else None, "closure has a cycle, checkCycles returned a listing")
     got = [(e[0], e[1], e[2]) for e in out]
@@ -443,6 +491,19 @@ def run_impl(job):
                 except BaseException as ex:  # noqa
                     row.append(L.err_class(ex))
             lists.append(row)
+        # the plain listing of every root once more, all by ONE Eups object, in order: what was listed before must not matter
+        sweep = []
+        try:
+            ecmd = L.cli_eups("list", ["-D"] + list(roots[0]))
+            e1 = ecmd.createEups(ecmd.opts, versionName=None, quiet=1)
+        except BaseException as ex:  # noqa
+            e1 = None
+        for r in roots:
+            try:
+                sweep.append(L.quietly(lambda r: L.canon_listing(e1.getDependentProducts(e1.getProduct(r[0], r[1]), False,
+                                                                                      topological=False, checkCycles=False)), r))
+            except BaseException as ex:  # noqa
+                sweep.append(L.err_class(ex))
         builds = []
         for r in roots:
             try:
@@ -465,7 +526,7 @@ def run_impl(job):
                         users.append(L.canon_users(L.quietly(e.uses, n, v, 9999, usesInfo=info)))
                     except BaseException as ex:  # noqa
                         users.append(L.err_class(ex))
-        return {"lists": lists, "builds": builds, "uses": uses, "users": users}
+        return {"lists": lists, "builds": builds, "uses": uses, "users": users, "sweep": sweep}
     finally:
         common.rmtree(root)
 
@@ -641,9 +702,21 @@ def evaluate(ctx, graphs, ncli=2, corpus=False):
             raise common.InfraError("implementation child failed: %r" % (io_["crash"],))
         R = Resolved(g)
         ml = model_lists(ans)
-        ctx.hist("shape=%s" % g.get("shape", "corpus").replace("+j", ""))
-        if g.get("shape", "").endswith("+j"):
+        ctx.hist("shape=%s" % g.get("shape", "corpus").replace("+j", "").replace("+tag", ""))
+        if "+j" in g.get("shape", ""):
             ctx.hist("shape+j")
+        # a line with a tag / VRO of its own that does not resolve (or whose table cannot be read), followed in the same
+        # table by an unversioned line whose tagged and current versions differ and have different dependencies
+        for p in g["products"]:
+            for i, d in enumerate(p["deps"]):
+                if (d.get("t") or d.get("vro")) and d["k"] in ("req", "opt"):
+                    tg = d.get("t") or d.get("vro")
+                    for d2 in p["deps"][i + 1:]:
+                        if d2["k"] in ("req", "opt") and not d2["v"] and (d2["n"], tg) in R.tagged and R.cur.get(d2["n"]) not in (None, R.tagged[(d2["n"], tg)]):
+                            a, b = R.decl[(d2["n"], R.cur[d2["n"]])], R.decl[(d2["n"], R.tagged[(d2["n"], tg)])]
+                            if a["deps"] != b["deps"]:
+                                ctx.hist("graph:tagged_line_then_split_versions")
+                                ctx.hist("graph:tagged_line_%s" % ("unreadable_table" if (d["n"], d.get("v")) in R.decl else "undeclared"))
         ctx.hist("products=%d" % len(g["products"]))
         if any(p.get("notable") for p in g["products"]):
             ctx.hist("graph:has_product_without_table")
@@ -668,6 +741,17 @@ def evaluate(ctx, graphs, ncli=2, corpus=False):
                     ctx.disagree("listing", inp, out, mo)
                 for clause, fid, detail in oracle_listing(R, r, mode, out, ctx.hist if mi == 0 else None):
                     ctx.fail(clause, inp, out, mo, note=detail, finding=fid)
+        plain = MODES.index([False, False])
+        for ri, r in enumerate(roots):
+            # the same listing by an Eups object that has listed the roots before it
+            out, mo, fresh = io_["sweep"][ri], ml[ri][plain], io_["lists"][ri][plain]
+            inp = {"graph": g, "root": r, "mode": [False, False], "sweep": ri}
+            ctx.case(key=[g["products"], r, "sweep"], nontrivial=bool(R.succ.get((r[0], r[1], True))) and ri > 0)
+            if out != mo:
+                ctx.disagree("listing_after_other_listings", inp, out, mo)
+            if out != fresh:
+                ctx.fail("listing_independent_of_history", inp, out, mo, finding=None,
+                         note="listed after %d other listings by the same Eups object: %r; by a fresh one: %r" % (ri, out, fresh))
         mb = [(b["list"] if b["out"] == "ok" else b["out"]) for b in ans["builds"]]
         for ri, r in enumerate(roots):
             out, mo = io_["builds"][ri], mb[ri]
@@ -687,9 +771,7 @@ def evaluate(ctx, graphs, ncli=2, corpus=False):
                 cyc_ok = False
                 inp = {"graph": g, "query": queries[0]}
                 ctx.case(key=[g["products"], "uses"], nontrivial=True)
-                fid = None
-                if io_["uses"] == "Recursion" and any(R.has_unsetup.values()):
-                    fid = "D32"
+                fid = None          # D32 (RecursionError with an unsetup line in a cycle) is repaired
                 ctx.fail("uses_no_error", inp, io_["uses"], ans.get("uses"), note="uses() raised %s" % io_["uses"], finding=fid)
             else:
                 cache = {}
@@ -878,24 +960,27 @@ def corpus_graphs():
     return out
 
 
+FLOORS = ("closure:cyclic", "closure:two_declared_versions", "closure:unresolved", "shape=cyclic",
+          "closure:unsetup", "closure:unsetup_reentrant", "graph:tagged_line_then_split_versions",
+          "graph:tagged_line_undeclared", "graph:tagged_line_unreadable_table", "closure:j_target_opened_elsewhere",
+          "closure:j_target_not_opened", "graph:has_prefix_versions", "users:prefix_version_with_distinct_users")
+
+
 def run(ctx):
+    """Order matters: the ordinary quick portion (corpus, a slice of the exhaustive family, the generated stream with its
+    distribution floors) always comes first; the enlarged budget of the thorough tier / of a run escalated because the
+    mirrored source changed is spent after it.  (Before round 3 the enlarged run started with the whole exhaustive family,
+    which used up the time limit: exactly when the source had changed, the generated stream never ran.)"""
+    big = ctx.tier == "thorough" or ctx.escalated
     cg = corpus_graphs()
     ctx.hist("corpus", len(cg))
     if cg:
         evaluate(ctx, cg, ncli=1)
-    evaluate_topo(ctx, ctx.n(1500, 40000))
-    # exhaustive small family: all of it in the thorough tier, a slice that moves with the seed otherwise
+    evaluate_topo(ctx, 1500)
     total = enum_count()
-    if ctx.tier == "thorough" or ctx.escalated:
-        ids = list(range(total))
-        ctx.note("exhaustive family: all %d graphs over %s" % (total, sorted(ENUM_LINES)))
-    else:
-        ids = [(ctx.seed * 977 + k * 103) % total for k in range(30)]
-    for at in range(0, len(ids), 120):
-        if ctx.out_of_time():
-            break
-        evaluate(ctx, [enum_graph(i) for i in ids[at:at + 120]], ncli=1 if ctx.tier != "thorough" else 0)
-    n = ctx.n(120, 6000)
+    ids = [(ctx.seed * 977 + k * 103) % total for k in range(30)]
+    evaluate(ctx, [enum_graph(i) for i in ids], ncli=1 if ctx.tier != "thorough" else 0)
+    n = 120
     done = 0
     while done < n and not ctx.out_of_time():
         k = min(60, n - done)
@@ -904,12 +989,25 @@ def run(ctx):
     if ctx.evaluations and ctx.distinct_nontrivial < ctx.evaluations * 0.3:
         raise common.InfraError("degenerate distribution: %d non-trivial of %d" % (ctx.distinct_nontrivial, ctx.evaluations))
     h = ctx.histogram
-    if not ctx.escalated and n >= 100:
-        for need in ("closure:cyclic", "closure:two_declared_versions", "closure:unresolved", "shape=cyclic",
-                     "closure:j_target_opened_elsewhere", "closure:j_target_not_opened", "graph:has_prefix_versions",
-                     "users:prefix_version_with_distinct_users"):
+    if done >= 100:
+        for need in FLOORS:
             if not h.get(need):
                 raise common.InfraError("degenerate distribution: no case with %s" % need)
+    if not big:
+        return
+    # the enlarged portion: generated graphs and the exhaustive family in alternation, then the direct tests of the sort
+    ctx.note("exhaustive family: all %d graphs over %s, interleaved with the generated stream" % (total, sorted(ENUM_LINES)))
+    rest = [i for i in range(total) if i not in set(ids)]
+    at, more = 0, 0
+    while (at < len(rest) or more < 5880) and not ctx.out_of_time():
+        if more < 5880:
+            evaluate(ctx, [gen_graph(ctx.rng, wide=ctx.tier == "thorough") for _ in range(60)])
+            more += 60
+        if at < len(rest) and not ctx.out_of_time():
+            evaluate(ctx, [enum_graph(i) for i in rest[at:at + 120]], ncli=1 if ctx.tier != "thorough" else 0)
+            at += 120
+    if not ctx.out_of_time():
+        evaluate_topo(ctx, 38500)
 
 
 def replay(ctx, rp):
